@@ -221,3 +221,56 @@ Proof.
 Qed.
 Print Assumptions C01_nodes_agree_on_finalized_block_ids.
 Print Assumptions C01_nodes_agree_on_finalized_block_ids_dynamic_partial.
+
+(* ================================================================== non-vacuity: two linked node histories over blocks with identity *)
+(* universe = SafetyIdsExamples.TU1 (chain A with ids 1..10; chain B = blocks 1-3 and a SECOND block of validator 4 at height 4 with
+   the BFT fields of A's block 4 and id 204).  Node 1 applies the ten blocks of A.  Node 2 applies 1-3, then the forged twin 204,
+   deletes it (reorg), applies 4-10 of A and restarts.  blk_of 204 = blk_of 4 (no injectivity!).  Both histories are linked to the
+   vote model, both nodes finalize height 5, and at every finalized height they serve the same id. *)
+From LE Require Import BFT.SafetyIdsExamples.
+Module NodeIdsExample.
+  Import Example.
+  Definition dblk : block := (mkhdr 0 0 0 0, None).
+  Definition blk_of (id : N) : block := if id =? 204 then nth 3 Ka dblk else nth (N.to_nat id - 1) Ka dblk.
+  Definition app_op (s : F.st) (id : N) : F.op :=
+    F.Apply id true (match run_blocks 4 ex_s0 (untag (absK blk_of (F.chain s ++ [id]))) with Ok sv => v_mhpc (s_votes sv) | Error _ => 0 end) false.
+  Fixpoint script (s : F.st) (cmds : list (N + F.op)) : list F.op :=
+    match cmds with
+    | [] => []
+    | inl id :: r => let o := app_op s id in o :: script (F.step s o) r
+    | inr o :: r => o :: script (F.step s o) r
+    end.
+  Definition ops1 : list F.op := script (F.init 0) (map inl [1; 2; 3; 4; 5; 6; 7; 8; 9; 10]).
+  Definition ops2 : list F.op :=
+    script (F.init 0) ([inl 1; inl 2; inl 3; inl 204; inr (F.Delete 4 false true)] ++ map inl [4; 5; 6; 7; 8; 9; 10] ++ [inr F.Restart]).
+  Ltac solve_link :=
+    repeat match goal with
+           | |- _ /\ _ => split
+           | |- True => exact I
+           | |- _ \/ _ => first [left; eexists; reflexivity | right; eexists; reflexivity]
+           | |- _ <> _ => discriminate
+           | |- _ -> False => discriminate
+           | |- exists _, _ => eexists
+           | |- _ = _ => reflexivity
+           end.
+  Lemma ops1_linked : linked_run 4 ex_s0 TU1 blk_of (F.init 0) ops1.
+  Proof. vm_compute. solve_link. Qed.
+  Lemma ops2_linked : linked_run 4 ex_s0 TU1 blk_of (F.init 0) ops2.
+  Proof. vm_compute. solve_link. Qed.
+
+  Example C01_nodes_ids_hypotheses_satisfiable :
+    (0 < 4)%nat /\ init_store 4 0 ex_c = Ok ex_s0 /\ tuniverse_decl 4 0 ex_s0 TU1 /\
+    (forall v, In v (map fst (c_vals ex_c)) -> ~ In v [4] -> thonest TU1 v) /\
+    total_weight (sort_desc (c_vals ex_c)) + wsum (sort_desc (c_vals ex_c)) [4] < c_pc ex_c + (total_weight (c_vals ex_c) * 2 / 3 + 1) /\
+    linked_run 4 ex_s0 TU1 blk_of (F.init 0) ops1 /\ linked_run 4 ex_s0 TU1 blk_of (F.init 0) ops2 /\
+    F.fin (F.run (F.init 0) ops1) = 5 /\ F.fin (F.run (F.init 0) ops2) = 5 /\
+    blk_of 204 = blk_of 4 /\ In (F.FDelete 204) (F.emitted (F.run (F.init 0) ops2)) /\
+    F.chain (F.run (F.init 0) ops2) = [0; 1; 2; 3; 4; 5; 6; 7; 8; 9; 10].
+  Proof.
+    split; [lia|]. split; [exact ex_init|]. split; [exact TU1_universe|]. split; [exact TU1_honest|].
+    split; [vm_compute; reflexivity|]. split; [exact ops1_linked|]. split; [exact ops2_linked|].
+    split; [vm_compute; reflexivity|]. split; [vm_compute; reflexivity|]. split; [vm_compute; reflexivity|].
+    split; [vm_compute; tauto|vm_compute; reflexivity].
+  Qed.
+End NodeIdsExample.
+Print Assumptions NodeIdsExample.C01_nodes_ids_hypotheses_satisfiable.
